@@ -332,6 +332,12 @@ def finish(pid, tier, level, obs, results, *, t0, funcs, bounds, stubs, assumpti
             problems.append(f"{ob.name}: {status}: {r.get('note')}" + (("\n" + r["trace"]) if r.get("trace") else ""))
     # replay files + protocol lines
     os.makedirs(os.path.join(ROOT, "replays"), exist_ok=True)
+    import glob
+    for old in glob.glob(os.path.join(ROOT, "replays", f"{pid}-*.json")):
+        try:
+            os.remove(old)
+        except OSError:
+            pass
     seen_digest = set()
     for ob, r in violations:
         payload = {"property": pid, "obligation": ob.name, "cex": r.get("cex"), "replay": r.get("replay"),
